@@ -35,6 +35,16 @@ BATCH_TIMEOUT = 300
 IGN_DEFAULT = ['.git', '.svn', 'CVS', '{arch}', '.arch-ids', '_darcs']
 
 
+def _strace_unescape(tok):
+    simple = {'a': 7, 'b': 8, 'f': 12, 'n': 10, 'r': 13, 't': 9, 'v': 11,
+              '\\': 92, '"': 34}
+    if tok in simple:
+        return chr(simple[tok])
+    if tok[0] == 'x':
+        return chr(int(tok[1:], 16))
+    return chr(int(tok, 8))
+
+
 def batch_size(tier):
     return 10
 
@@ -284,7 +294,13 @@ def run_case(case):
                                r'\((?:AT_FDCWD, )?"([^"]+)"', ln)
                 if not m or not ln.rstrip().endswith('= 0'):
                     continue
-                sp = m.group(2)
+                # strace writes bytes outside printable ASCII as C escapes
+                # ("cafe\314\201.pyc"): back to the real path
+                sp = _re.sub(
+                    r'\\([0-7]{1,3}|x[0-9a-fA-F]{2}|[abfnrtv\\"])',
+                    lambda mm: _strace_unescape(mm.group(1)),
+                    m.group(2)).encode('latin-1').decode('utf-8',
+                                                         'surrogateescape')
                 if not os.path.isabs(sp):
                     sp = os.path.join(base, sp)
                 sp = os.path.realpath(sp) if os.path.exists(
